@@ -22,7 +22,9 @@ def no_nl_tab(k, *cps):
     return True
 
 
-def _record(reader, lines, start_line):
+def _record(token_type, lines, start_line):
+    """run the container's reader AND constructor with tokenize_block replaced by a recorder: the
+    hand-off is observed wherever the implementation chooses to do it (read() today)"""
     cap = []
     orig = btk.tokenize_block
 
@@ -32,24 +34,25 @@ def _record(reader, lines, start_line):
     btk.tokenize_block = fake
     try:
         fw = btk.FileWrapper(lines, start_line=start_line)
-        res = reader(fw)
+        res = token_type.read(fw)
+        tok = token_type(res)
     finally:
         btk.tokenize_block = orig
         bt.Paragraph.parse_setext = True
-    return cap, fw, res
+    return cap, fw, tok
 
 
 # ---------------------------------------------------------------------------------------- Q1
 
-@lemma('Q1.quote-handoff', 'C04', quick=[{'k': k, 'pos': p, 'sp': sp} for k in (1, 2) for p in (0, 1, 2) for sp in (True, False)],
-       thorough=[{'k': k, 'pos': p, 'sp': sp} for k in (1, 2, 3) for p in (0, 1, 2) for sp in (True, False)], timeout=900, per_path=90,
+@lemma('Q1.quote-handoff', 'C04', quick=[{'k': k, 'pos': p, 'sp': sp} for k in (0, 1, 2) for p in (0, 1, 2) for sp in (True, False)],
+       thorough=[{'k': k, 'pos': p, 'sp': sp} for k in (0, 1, 2, 3) for p in (0, 1, 2) for sp in (True, False)], timeout=900, per_path=90,
        stubs=['block_tokenizer.tokenize_block -> recorder'],
        covers=['block_token.py:Quote.read', 'block_token.py:Quote.convert_leading_tabs', 'block_tokenizer.py:FileWrapper.line_number'],
        note="three quoted lines, the one at position pos symbolic (k code points over Σmd, no tab/newline), marker '> ' or '>' (then the line does not start with a space); start line unbounded")
 def q1_quote(c1: int, c2: int, c3: int, start: int) -> bool:
     """
     pre: all_ok(cp_md, P('k'), c1, c2, c3) and no_nl_tab(P('k'), c1, c2, c3)
-    pre: P('sp') or c1 != 32
+    pre: P('sp') or P('k') == 0 or c1 != 32
     post: _
     """
     x = S(P('k'), c1, c2, c3)
@@ -59,7 +62,7 @@ def q1_quote(c1: int, c2: int, c3: int, start: int) -> bool:
     lines = [marker + c + '\n' for c in content]
     if not bt.Quote.start(lines[0]):
         return False
-    cap, fw, res = _record(bt.Quote.read, lines, start)
+    cap, fw, tok = _record(bt.Quote, lines, start)
     if len(cap) != 1:
         return False
     buf, sl = cap[0]
@@ -91,13 +94,13 @@ def q2_list(c1: int, c2: int, c3: int, pad: int, start: int) -> bool:
     lines = [M + ' ' * pad + content[0] + '\n', ' ' * W + content[1] + '\n', '\n', ' ' * W + content[3] + '\n']
     if not bt.List.start(lines[0]):
         return False
-    cap, fw, res = _record(bt.List.read, lines, start)
-    if len(cap) != 1 or len(res) != 1:
+    cap, fw, tok = _record(bt.List, lines, start)
+    if len(cap) != 1 or len(tok.children) != 1:
         return False
     buf, sl = cap[0]
-    pb, indentation, prepend, leader, line_number = res[0]
-    return (buf == [content[0] + '\n', content[1] + '\n', '\n', content[3] + '\n'] and sl == start and line_number == start
-            and indentation == 0 and prepend == W and leader == M and fw._index == 3)
+    item = tok.children[0]
+    return (buf == [content[0] + '\n', content[1] + '\n', '\n', content[3] + '\n'] and sl == start and item.line_number == start
+            and item.indentation == 0 and item.prepend == W and item.leader == M and fw._index == 3)
 
 
 # ---------------------------------------------------------------------------------------- Q3
